@@ -34,7 +34,7 @@ PROP = {
     "technique": "Coq proof (list induction: stable sort, permutations, minimal-head k-way merge relation, min/max windows) + correspondence cases evaluated by vm_compute",
     "rule": "a history is non-trivial when its sort values contain duplicates AND at least one document has no value AND at least one delete_term hits a tag already used in the same "
             "(reordered) transaction; histories cover u64/i64/f64/date/str/bytes x Asc/Desc (+ unsorted control), extremes (0, u64::MAX, i64::MIN/MAX, +-inf, subnormals, empty string/bytes), "
-            "1-5 commits, merges of disjoint / overlapping / identical value windows with and without deleted documents, single- and multi-valued documents; distinct by hash of the Gallina case term",
+            "1-5 commits, merges of disjoint / overlapping / identical value windows with and without deleted documents, single- and multi-valued documents; plus a boundary batch per key type x direction: fresh segments (and a merge of two) made only of both ends of the type with neighbours ({0,1,2,MAX-2,MAX-1,MAX} u64; {MIN,MIN+1,MIN+2,-1,0,1,MAX-2,MAX-1,MAX} i64 and nanosecond dates; +-inf, +-f64::MAX and neighbours, subnormals; shortest/greatest strings and byte strings) in ascending, descending, both pairwise and shuffled insertion orders, tied against the model mapping whose key is Option<u64> (all values distinguished); distinct by hash of the Gallina case term",
     "trusted_base": COMMON_TB + ["std::slice::sort_by (stable) is represented by a stable insertion sort, itertools::kmerge_by by the relation kmerge_run (any minimal-head merge); "
                                  "both tied by differential runs only",
                                  "dictionary ordinals of Str/Bytes columns are modelled as ranks in byte order (C15's domain)"],
